@@ -24,6 +24,7 @@ func (q *clientSegmentQueue) initialize() {
 }
 
 func (q *clientSegmentQueue) push(seg *segmentData) {
+	verifYield("queue.push.enter")
 	q.mutex.Lock()
 
 	queueWasEmpty := (len(q.queue) == 0)
@@ -42,6 +43,7 @@ func (q *clientSegmentQueue) waitUntilSizeIsBelow(ctx context.Context, n int) bo
 
 	for len(q.queue) > n {
 		q.mutex.Unlock()
+		verifYield("queue.wait.beforeWait")
 
 		select {
 		case <-q.didPull:
@@ -62,6 +64,7 @@ func (q *clientSegmentQueue) pull(ctx context.Context) (*segmentData, bool) {
 	for len(q.queue) == 0 {
 		didPush := q.didPush
 		q.mutex.Unlock()
+		verifYield("queue.pull.beforeWait")
 
 		select {
 		case <-didPush:
